@@ -82,7 +82,19 @@ Definition check (c : case) : bool :=
         | Ok b => ok && bytes_eqb b data
         | Err _ => negb ok
         | Panic _ => false
-        end
+        end &&
+        (* the link the proofs leave to correspondence: strict parse of the bytes = the (type, body) list
+           of the model's extension values (padding in the state the wire shows), and the conclusion of
+           C03_generic evaluated on the parsed bytes against this connection's own spec order *)
+        (negb ok ||
+         match apply_preset sp {| c_sni := sni; c_omit_psk := omit |} fr, parse_hello data with
+         | Ok he, Some a =>
+             let pad := find (fun w => fst w =? ID_PADDING) (a_exts a) in
+             let es := map (match pad with Some w => set_pad (blen (snd w)) true | None => set_pad 0 false end) (snd he) in
+             list_eqb (fun x y => (fst x =? fst y) && bytes_eqb (snd x) (snd y)) (a_exts a) (wire_of es)
+             && ast_matches_specb a {| p_name := name; p_spec := sp; p_shuffles := false |} {| c_sni := sni; c_omit_psk := omit |}
+         | _, _ => false
+         end)
       end
   | CShuffle fixed swaps panicked result =>
       let l := combine (seq 0 (length fixed)) fixed in
